@@ -31,7 +31,11 @@ class GSRef:
             self.f = f % p
         self.fs = fock.Fock(n_o, n_v, p)
         self.ham = fock.Hamiltonian(self.fs, self.f, self.V, variant)
-        self.rspt = fock.RSPT(self.ham, order)
+        s1 = None
+        if variant == 'mp' and singles:
+            # free first-order singles (zero for a HF reference): random values
+            s1 = base.full('non', 'singles1', 2, 0)
+        self.rspt = fock.RSPT(self.ham, order, first_order_singles=s1)
         self.order = order
         explicit = {('f', 1, 1): self.f, ('V', 2, 2): self.V}
         kmax = min(n_o, n_v)
